@@ -140,6 +140,17 @@ def sampling_support(ctx, case, out, p):
     for k in (["tmpf", "tmpb", "tmpw"] if case.f.double else ["tmpf"]):
         a, b = mc[k + "_mc_var"].values, out[k + "_var"].values
         m = np.isfinite(a) & np.isfinite(b) & (b > 0)
+        # "small noise": the property compares a first-order variance with a sample variance. Where the reported parameter variances are
+        # large (between two splices the variance of alpha outside the sections is that of a non-estimable direction: tens of K^2) the
+        # second-order term of T = gamma/(...) has a variance of about v^2/T^2; cells where that exceeds 2% of the compared variance are
+        # outside the premise and are skipped (counted)
+        TK = out["tmpf"].values + 273.15
+        vmax = np.maximum(out["tmpf_var"].values, out["tmpb_var"].values) if case.f.double else out["tmpf_var"].values
+        small = (vmax ** 2 / TK ** 2) <= 0.02 * b
+        ctx.count(f"sampling-support-cells-skipped-not-small-noise[{k}]", int(np.sum(m & ~small)))
+        m &= small
+        if not m.any():
+            continue
         rel = np.abs(a[m] / b[m] - 1)
         ctx.count(f"sampling-support-max-rel-dev[{k}]", round(float(rel.max()), 4))
         if rel.max() > 0.12:
@@ -200,7 +211,8 @@ def run(ctx):
                          "(sampled parameters compared with p_val through the layout inside Coq; realisations and bounds equal the calibrated temperature), realisations/variance/"
                          "percentiles recomputed from the exposed samples, all 16 (double) / 4 (single) flag combinations executed; thorough: mc_var vs propagated variance at n = 2e4")
     ctx.trusted += ["harness vlib/props/c08.py", "scipy.stats / dask.random / np.random generators are outside the model"]
-    ctx.assumptions += ["convergence of the sample variance to the propagated variance is SAMPLING SUPPORT (fixed seed, 12% threshold at n = 2e4), not a theorem"]
+    ctx.assumptions += ["convergence of the sample variance to the propagated variance is SAMPLING SUPPORT (fixed seed, 12% threshold at n = 2e4), not a theorem",
+                        "'small noise' = cells where the second-order variance v^2/T^2 is below 2% of the compared variance"]
     run_params(ctx, gen_params(ctx))
 
 
